@@ -51,6 +51,25 @@ def sh(cmd, **kw):
     return subprocess.run(cmd, capture_output=True, text=True, env=ENV, **kw)
 
 
+def sh_timeout(cmd, limit_s, **kw):
+    """Like sh(), but kills the whole process group (verus spawns z3 children) after limit_s seconds; returns None then."""
+    import signal
+    pr = subprocess.Popen(cmd, stdout=subprocess.PIPE, stderr=subprocess.PIPE, text=True, env=ENV, start_new_session=True, **kw)
+    try:
+        so, se = pr.communicate(timeout=limit_s)
+    except subprocess.TimeoutExpired:
+        try:
+            os.killpg(pr.pid, signal.SIGKILL)
+        except Exception:  # noqa
+            pass
+        try:
+            pr.communicate(timeout=10)
+        except Exception:  # noqa
+            pass
+        return None
+    return subprocess.CompletedProcess(cmd, pr.returncode, so, se)
+
+
 # --------------------------------------------------------------------------------------------- setup
 
 def cmd_setup(_args):
@@ -89,7 +108,15 @@ def run_verus(unit_name, tier, seed):
         rlimit *= 5
     cmd = ["verus", meta["path"], "--triggers-mode", "silent", "--output-json", "--time", "--error-format=json",
            "--rlimit", str(rlimit), "--multiple-errors", "5", "--smt-option", f"smt.random_seed={seed}"]
-    p = sh(cmd, cwd=os.path.join(ROOT, "build"))
+    # hard wall-clock limit: some solver loops (nonlinear arithmetic) do not consume the resource limit; a hung query is undecided, not a hang
+    limit_s = int(os.environ.get("VERIF_VERUS_TIMEOUT", "0")) or (2400 if tier == "thorough" else 600)
+    p = sh_timeout(cmd, limit_s, cwd=os.path.join(ROOT, "build"))
+    if p is None:
+        # such loops depend on the solver's seed: one retry with another seed before giving up
+        cmd = cmd[:-1] + [f"smt.random_seed={seed + 1000}"]
+        p = sh_timeout(cmd, limit_s, cwd=os.path.join(ROOT, "build"))
+    if p is None:
+        return {"unit": unit_name, "fatal": f"verus did not finish within {limit_s} s under two solver seeds (solver loop that does not consume the resource limit): undecided", "meta": meta, "wall_s": time.time() - t0}
     out = {"unit": unit_name, "meta": meta, "cmd": " ".join(cmd), "rc": p.returncode}
     try:
         j = json.loads(p.stdout)
